@@ -1,14 +1,16 @@
 import VelaVerif.Model.MlwEncode
+import VelaVerif.Spec.MlwPlan
 import VelaVerif.Handlers.Util
 /-!
 Protocol of the MLW writer model (C07, `Model/MlwEncode.lean`).  `-` stands for an empty list.
 
-* `mlwenc <plan> <weights csv>` → `ok <hex of the stream>` | `err:<kind>`
+* `mlwenc <plan> <weights csv>` → `ok planok=<0|1> <hex of the stream>` | `err:<kind> planok=<0|1>`
+  (`planok` = `Spec/MlwPlan.lean` `planOk plan weights`, the hypothesis of `decode_encode_plan`)
   plan = sections joined by `|` (`-` for no section); section =
   `size;lut csv;palbits;useZeroRuns;onlyPalette;directOffset;onlyZeros;slices`, slices = `len:wcfg:zcfg` joined by `/`
 -/
 namespace VelaVerif.Handlers.MlwEnc
-open VelaVerif VelaVerif.Handlers VelaVerif.MlwEnc
+open VelaVerif VelaVerif.Handlers VelaVerif.MlwEnc VelaVerif.MlwPlan
 
 def csvNats (s : String) : Option (List Nat) :=
   if s == "-" then some [] else (s.splitOn ",").mapM parseNat?
@@ -37,9 +39,10 @@ def handle : List String → Option String
   | ["mlwenc", plan, ws] => do
     let plan ← parsePlan plan
     let ws ← csvInts ws
+    let pk := boolStr (planOk plan ws)
     match write plan ws with
-    | .error e => some s!"err:{e.toString}"
-    | .ok bytes => some s!"ok {if bytes.isEmpty then "-" else hexBytes bytes}"
+    | .error e => some s!"err:{e.toString} planok={pk}"
+    | .ok bytes => some s!"ok planok={pk} {if bytes.isEmpty then "-" else hexBytes bytes}"
   | _ => none
 
 end VelaVerif.Handlers.MlwEnc
